@@ -92,7 +92,15 @@ func copyBlock(v reflect.Value, block Block) error {
 			return fmt.Errorf("found field %q but is unexported", f.Name)
 		}
 
-		namei := f.Index[0]
+		// f can be promoted from an embedded struct, so follow its whole index
+		fv, err := v.FieldByIndexErr(f.Index)
+		if err != nil {
+			return err
+		}
+		if !fv.CanSet() {
+			return fmt.Errorf("found field %q but it cannot be set", f.Name)
+		}
+
 		vx := reflect.ValueOf(x)
 		if !vx.IsValid() {
 			return fmt.Errorf(
@@ -108,7 +116,7 @@ func copyBlock(v reflect.Value, block Block) error {
 					f.Name, f.Type, name,
 				)
 			}
-			return copyBlock(v.Field(namei), x.(Block))
+			return copyBlock(fv, x.(Block))
 		}
 
 		if st, bt := f.Type, vx.Type(); !bt.AssignableTo(st) {
@@ -118,7 +126,7 @@ func copyBlock(v reflect.Value, block Block) error {
 			)
 		}
 
-		v.Field(namei).Set(vx)
+		fv.Set(vx)
 		return nil
 	}
 
